@@ -107,3 +107,14 @@ Proof. exact (independent_bounds op XL XR YL YR u v n). Qed.
 Print Assumptions C03_perfect_sound.
 Print Assumptions C03_independent_sound.
 Print Assumptions C03_opposite_sound.
+
+(* np.add / np.subtract / np.multiply / np.divide with a p-box among the two inputs (recognised in the source on every run: Staircase.__array_ufunc__):
+   when the first input is a p-box the operation is the forward operator of the FIRST input applied to the second - also when numpy hands the call to
+   the second input because it is of a subclass (finding O39: the reflected operator was used there, which pairs the steps without the p <-> o exchange
+   of subtraction and division) - so the laws above, stated of X.sub(Y, d) / X.div(Y, d), are the laws of np.subtract(X, Y) / np.divide(X, Y) *)
+From PUN Require Import Gen.GenCtor Proofs.CtorTie.
+Theorem C03_numpy_function_route_is_translated (first_is_pbox : bool) : gen_ufunc_route first_is_pbox = ufunc_route_of first_is_pbox.
+Proof. exact (gen_ufunc_route_is_model first_is_pbox). Qed.
+Theorem C03_two_pboxes_use_the_operator_of_the_first : gen_ufunc_route true = ForwardOfFirst.
+Proof. reflexivity. Qed.
+Print Assumptions C03_numpy_function_route_is_translated.
